@@ -139,7 +139,11 @@ func (g *Graph) Canon() error {
 	}
 	g.renumber(on.Mapping(), false)
 
-	if on.Dupe {
+	// Whether there are duplicate nodes is decided on the sorted nodes, not by
+	// on.Dupe: the root is kept in place while sorting, so the sort does not
+	// necessarily compare a duplicate of the root with the root, and whether
+	// Less happens to see such a pair depends on the initial node order.
+	if g.hasDuplicateNodes() {
 		// If there were duplicate nodes, the prior sort did not yield a
 		// canonical ordering. Perform a more expensive BFS canonicalisation.
 		// Unfortunately this needs to be done after the edge/root renumbering
@@ -152,6 +156,21 @@ func (g *Graph) Canon() error {
 	}
 
 	return nil
+}
+
+// hasDuplicateNodes reports whether two nodes compare equal, in a graph whose
+// nodes after the root are sorted: a duplicate of the root can be anywhere,
+// other duplicates are adjacent.
+func (g *Graph) hasDuplicateNodes() bool {
+	for i := 1; i < len(g.Nodes); i++ {
+		if g.Nodes[0].Compare(g.Nodes[i]) == 0 {
+			return true
+		}
+		if i > 1 && g.Nodes[i-1].Compare(g.Nodes[i]) == 0 {
+			return true
+		}
+	}
+	return false
 }
 
 // renumber renumbers the graph's edges and root node based on the given mapping
